@@ -47,6 +47,14 @@ func classes(c fam.Case) []string {
 	return cl
 }
 
+func reversed(xs []string) []string {
+	out := make([]string, len(xs))
+	for i, x := range xs {
+		out[len(xs)-1-i] = x
+	}
+	return out
+}
+
 // phase 1: faithful copy
 func checkCopy(c fam.Case) *fail {
 	w := c.W
@@ -56,7 +64,7 @@ func checkCopy(c fam.Case) *fail {
 	}
 	var f *fail
 	pan, pt := core.Guard(func() {
-		for _, ord := range [][]string{{"a", "as", "b"}, {"b", "as", "a"}} {
+		for _, ord := range [][]string{w.Order, reversed(w.Order)} {
 			ms, lerr, errs := ircmp.Load(w, ord)
 			if lerr != nil {
 				f = &fail{"load-error", "loads", lerr.Error(), classes(c)}
@@ -170,13 +178,13 @@ func checkIndependence(c fam.Case, report func(in Input, f *fail), count func())
 	if len(c.Sites) < 2 {
 		return
 	}
-	base, lerr, errs := ircmp.Load(w, []string{"a", "as", "b"})
+	base, lerr, errs := ircmp.Load(w, w.Order)
 	if lerr != nil || len(errs) > 0 {
 		return // phase 1 reports that
 	}
 	for vi, victim := range c.Sites {
 		vmod := victim[0]
-		if vmod == "as" {
+		if vmod == "as" || vmod == "as2" {
 			vmod = "a"
 		}
 		vt := w.Trees[vmod].Kids[victim[1]]
@@ -200,7 +208,7 @@ func checkIndependence(c fam.Case, report func(in Input, f *fail), count func())
 					others = append(others, o[0]+"/"+o[1])
 				}
 			}
-			in := Input{Desc: c.Desc + " mutation=" + mu.name, Files: ircmp.Files(w, []string{"a", "as", "b"}), Mutant: &mfile, Victim: victim[0] + "/" + victim[1], Others: others}
+			in := Input{Desc: c.Desc + " mutation=" + mu.name, Files: ircmp.Files(w, w.Order), Mutant: &mfile, Victim: victim[0] + "/" + victim[1], Others: others}
 			count()
 			if f := independence(base, in); f != nil {
 				f.classes = classes(c)
@@ -217,13 +225,13 @@ func checkBoth(c fam.Case, report func(in Input, f *fail), count func()) {
 	if len(c.Sites) != 2 {
 		return
 	}
-	files := ircmp.Files(w, []string{"a", "as", "b"})
+	files := ircmp.Files(w, w.Order)
 	for _, mu := range mutations {
 		var texts [2]string
 		ok := true
 		for vi, victim := range c.Sites {
 			vmod := victim[0]
-			if vmod == "as" {
+			if vmod == "as" || vmod == "as2" {
 				vmod = "a"
 			}
 			vt := w.Trees[vmod].Kids[victim[1]]
@@ -262,7 +270,7 @@ func both(in Input) *fail {
 	pan, pt := core.Guard(func() {
 		sub := func(r dump.Result, site string) string {
 			mod, node, _ := strings.Cut(site, "/")
-			if mod == "as" {
+			if mod == "as" || mod == "as2" {
 				mod = "a"
 			}
 			return subtree(r.MS, mod, node)
@@ -324,7 +332,7 @@ func independence(base *yang.Modules, in Input) *fail {
 			}
 			for _, o := range in.Others {
 				mod, node, _ := strings.Cut(o, "/")
-				if mod == "as" {
+				if mod == "as" || mod == "as2" {
 					mod = "a"
 				}
 				want, got := subtree(base, mod, node), subtree(r.MS, mod, node)
@@ -335,7 +343,7 @@ func independence(base *yang.Modules, in Input) *fail {
 			}
 			// and the mutation must have reached the victim
 			mod, node, _ := strings.Cut(in.Victim, "/")
-			if mod == "as" {
+			if mod == "as" || mod == "as2" {
 				mod = "a"
 			}
 			if subtree(base, mod, node) == subtree(r.MS, mod, node) {
@@ -371,7 +379,7 @@ func run(c *core.Ctx) {
 			return
 		}
 		caseNo, run := c.Begin()
-		in := Input{Desc: cs.Desc, Files: ircmp.Files(cs.W, []string{"a", "as", "b"}), Index: i - 1}
+		in := Input{Desc: cs.Desc, Files: ircmp.Files(cs.W, cs.W.Order), Index: i - 1}
 		if c.Skip(caseNo, run, in) {
 			return
 		}
